@@ -160,8 +160,18 @@ def r142(prog, chk):
             continue
         cfg = prog.cfg(m)
         sup = [c for c in calls_named(m, "set_context") if isinstance(c.func.value, ast.Call) and A.callee_name(c.func.value) == "super"]
-        first = cfg.nodes[cfg.entry].succ[0][1] if cfg.nodes[cfg.entry].succ else None
-        ok = bool(sup) and cfg.node_of(sup[0]) == first
+        # the chained call is the first statement that touches the filter object or its arguments
+        # (leading pass / logging statements do not count)
+        params = set(m.params())
+        first_st = None
+        for st_ in m.node.body:
+            if isinstance(st_, ast.Pass) or (isinstance(st_, ast.Expr) and isinstance(st_.value, ast.Constant)):
+                continue
+            if isinstance(st_, ast.Expr) and isinstance(st_.value, ast.Call) and not (A.names_in(st_.value) & params):
+                continue
+            first_st = st_
+            break
+        ok = bool(sup) and first_st is not None and prog.ix.enclosing_stmt(sup[0]) is first_st
         chk.ob("R14.2", f"{m.short}|chains to super first", ok, where(m), detail="ctx = super().set_context(...) is the first statement",
                message=f"{m.short} does not start by creating the fresh base context (stale data from the previous call can be read)")
     chk.minimum("R14.2", 20)
